@@ -14,18 +14,37 @@ TRUSTED_BASE = [
 ]
 PARTIAL = ["MUSIC/EV: relative to the SVD parameter (singular values scale by |c|, right singular subspaces unchanged)",
            "adaptive multitaper: the whole 100-pass loop is proved scale-free in exact arithmetic (C03.mt_adapt_scale_data); a floating-point "
-           "run whose distance sits exactly at the tolerance could stop one pass apart - outside the model"]
+           "run whose distance sits exactly at the tolerance could stop one pass apart - outside the model",
+           "bin-by-bin comparison: adaptive multitaper (data-dependent iteration), MUSIC / EV pseudo-spectra and parma (arma_estimate is ill-conditioned on narrow-band records: up to 3e-5 per bin on the unchanged library) are compared "
+           "max-normalised only; the kinds hdr / hdrar are oracle-only (library on c*x against |c|^2 times the library on x); WelchPeriodogram "
+           "(a wrapper of matplotlib's psd) has no Lean model"]
 ASSUMPTIONS = ["1e-3 <= |c| <= 1e3; complex c for complex data; orders/lags/NFFT inside each estimator's documented domain",
                "integer-typed records are scaled by an integer c (the scaled record is again integer-typed); class detrend in {None, 'mean'}; "
                "eigen threshold >= 1, 0 <= NSIG < P",
                "every observation point is compared max-normalised at 1e-6 (1e-7 for the Burg / Levinson / correlation / periodogram "
-               "recursions in the N=40 function form); the unchanged library stays below 1e-9 on every case family"]
+               "recursions in the N=40 function form); the unchanged library stays below 1e-9 on every case family",
+               "bin-by-bin kinds (hdr, hdrar): floating point cannot deliver a relative accuracy u in a bin that lies D dB below the strongest "
+               "spectral component of the record: an FFT of the data loses D/2 dB (amplitudes), an FFT of the correlation sequence D dB (powers). "
+               "The per-bin tolerance is that round-off model with a constant 39x above what the unchanged library needs (K = 200 against "
+               "<= 5.1 measured; correlogram K = 150 against <= 3.7); for Daniell the 'strongest component' is taken from the periodogram the estimate is averaged from (bin 0 and "
+               "the trailing bins are not part of the Daniell estimate), with detrending from the estimate without detrending",
+               "hdrar: AR / MA classes are compared per bin only on records on which their normal equations are well conditioned "
+               "(noise-driven AR(2)); a noise-free tone makes them singular to working precision (rho = 0 in exact arithmetic)"]
 RULE = ("random data (real/complex; N = 40, 9, 256, 257, 300, 1024; float, int64 with integer c, list input) x scalars c in {1e-3, -3, 1e3, "
         "-0.37, -1000, 7.3, 2-1j, 1e-3j, random} x every functional estimator (default and explicit arguments, ARMA with P<=4 and P>4, "
         "P!=Q, auto and cross correlation forms, matrix periodogram, dpss-supplied tapers) and every class variant (14; default, random, "
         "boundary and explicit configurations; every window name; scale_by_freq False/True/class default) x all six Burg criteria x eigen "
         "criteria (aic, mdl, threshold, explicit NSIG incl. 0 and P-1); class observation points psd, ar, ma, rho, reflection, weights, "
-        "eigenvalues")
+        "eigenvalues; PLUS bin-by-bin comparisons (every bin against its own value, tolerance from the FFT round-off model "
+        "2*K*u*sqrt(peak*bin) + (K*u)^2*peak, K = 200) on high-dynamic-range records (strong low / top-of-band line over a white floor 120-200 dB "
+        "down, with a second weak line, noise-free windowed tones, gaussian low-pass pulse over a floor, int64 24-bit converter record, white "
+        "noise, tone + 1e-3 noise; real/complex; N = 256 ... 2048; arrays, lists; overall amplitude 1e-6 ... 1e6) x scalars that are not powers "
+        "of two (3, -0.7, 1e3/3, 1.7e-3, +-1e-3, 1e3, 7.3, random; 0.6-1.1j, 600-800j, 6e-4+8e-4j, random complex; integer c for the int64 "
+        "records) x DaniellPeriodogram and pdaniell (P = 0, 1, 2, 3, 4, 5, 8, 16, random <= N/16; NFFT default, N, N+1, 2N, 2N+1, random; ten "
+        "windows; detrend, sampling, scale_by_freq), speriodogram, Periodogram, MultiTapering unity / eigen, WelchPeriodogram (headless, "
+        "NFFT 64 / 128 / default, noverlap, detrend), CORRELOGRAMPSD and pcorrelogram (|diff| <= K*u*peak, K = 150); per-bin relative "
+        "comparison (1e-9) of pburg, pyule, pcovar, pmodcovar, pminvar, pma on narrow-band AR(2) records (pole radius 0.9 "
+        "... 0.995)")
 
 CRITS = ["AIC", "AICc", "KIC", "FPE", "AKICc", "MDL"]
 
@@ -362,6 +381,191 @@ def oracle_class(p):
     return out
 
 
+# ---------------------------------------------------------------------------------------------------------------------------
+# bin-by-bin comparison on records with a very large dynamic range
+#
+# The comparisons above are max-normalised: a bin that lies 160 dB below the strongest one may be completely wrong without moving
+# rel() by more than 1e-16.  The kinds "hdr" / "hdrar" compare EVERY bin against its own value, on records whose spectrum spans
+# 120 ... 300 dB (a strong line over a weak broadband floor, clean windowed tones, a strong smooth low-frequency component, a 24-bit
+# converter record), with scalars that are not powers of two (a power of two scales every floating-point operation exactly and shows
+# nothing).  What a correct implementation can deliver per bin depends on how the estimate is computed:
+#   "amp"  the estimate is a sum of squared moduli of FFTs of the (tapered) data: periodogram, Daniell (function and class), Welch,
+#          multitaper unity / eigen.  The FFT works on AMPLITUDES: its round-off is ~u*sqrt(peak) in every bin (u = 2^-52), hence
+#              | sqrt(PSD(c x)[k]) - |c| sqrt(PSD(x)[k]) |  <=  K u sqrt(|c|^2 peak)          i.e.
+#              | PSD(c x)[k] - |c|^2 PSD(x)[k] |            <=  2 K u sqrt(want[k] peak) + (K u)^2 peak
+#          (a per-bin relative tolerance 2 K u sqrt(peak / want[k]): 4e-14 at the peak, 4e-6 in a bin 160 dB down, and the floor
+#          (K u)^2 peak - 267 dB below the peak - for bins that are round-off only, exact zeros included).
+#          Measured on the unchanged tree (sweep of the generator below: 40 seeds of the quick tier and 8 of the thorough tier, every
+#          case also run in every variant of vcheck.vary: 4258 cases, ~50000 estimator pairs): K <= 5.08 (speriodogram; Periodogram <= 3.5,
+#          Daniell function / class <= 3.3, Welch <= 1.8, multitaper <= 2.6); K_AMP = 200 is 39x that.  A Daniell smoothing written as a
+#          difference of running sums needs K ~ 1e3 ... 1e10 on the line / clean / low-pass records.
+#          "peak" is the largest value of the estimate, or of what it is computed from when that is not visible in it: _hdr_level.
+#   "pow"  correlogram (function and class): an FFT of the lag-windowed CORRELATION sequence, i.e. of powers; its round-off is u*peak
+#          in every bin (the estimate is not even non-negative), so the honest per-bin statement is |diff| <= K u peak.  Measured
+#          K <= 3.61 on the same sweep; K_POW = 150 (41x; the max-normalised comparisons above allow 1e-6 = 4.5e9 u).
+#   "bin"  AR / MA / minimum-variance classes (rho |B|^2 / |A|^2 from arma2psd): plain per-bin relative error on narrow-band AR(2)
+#          records (pole radius 0.9 ... 0.995, spectra spanning 50 ... 100 dB): measured <= 2.0e-11 (pburg, pyule, pcovar, pmodcovar, pma,
+#          pminvar; orders 2, 4, 8; N = 128, 256, 300; 40 seeds) -> RTOL_AR = 1e-9 (50x).  parma is NOT compared per bin: arma_estimate is
+#          ill-conditioned on these records (up to 2.5e-5 per bin on the unchanged tree, heavy-tailed); a noise-free or nearly noise-free
+#          tone makes every one of these estimators singular to working precision (pburg raises "negative value" for one of x, c*x).
+U_ = 2.0 ** -52
+K_AMP = 200.0
+K_POW = 150.0
+RTOL_AR = 1e-9
+
+HDR_METRIC = {"daniell": "amp", "pdaniell": "amp", "sper": "amp", "Periodogram": "amp", "MT": "amp", "welch": "amp",
+              "correlogram": "pow", "pcorrelogram": "pow",
+              "pburg": "bin", "pyule": "bin", "pcovar": "bin", "pmodcovar": "bin", "pma": "bin", "pminvar": "bin"}
+
+
+def _hdr_eval(fam, kw, d):
+    """the PSD estimate of estimator `fam` (keyword arguments kw, JSON-able) on the record d, as a float array"""
+    sp = C.sp()
+    kw = dict(kw)
+    if fam == "daniell":
+        P = kw.pop("P")
+        return np.asarray(sp.DaniellPeriodogram(d, P, **kw)[0], dtype=float)
+    if fam == "pdaniell":
+        P = kw.pop("P")
+        return np.asarray(sp.pdaniell(d, P, **kw).psd, dtype=float)
+    if fam == "sper":
+        return np.asarray(sp.speriodogram(d, **kw), dtype=float)
+    if fam == "Periodogram":
+        return np.asarray(sp.Periodogram(d, **kw).psd, dtype=float)
+    if fam == "MT":
+        return np.asarray(sp.MultiTapering(d, **kw).psd, dtype=float)
+    if fam == "welch":
+        import pylab                                    # WelchPeriodogram wraps pylab.psd (draws on the current axes; Agg backend)
+        nfft = kw.pop("NFFT")
+        try:
+            P, s_ = sp.WelchPeriodogram(d, nfft, **kw)
+            return np.asarray(P[0], dtype=float)
+        finally:
+            pylab.close("all")
+    if fam == "correlogram":
+        return np.asarray(sp.CORRELOGRAMPSD(d, **kw), dtype=float)
+    if fam == "pcorrelogram":
+        return np.asarray(sp.pcorrelogram(d, **kw).psd, dtype=float)
+    if fam in ("pburg", "pyule", "pcovar", "pmodcovar", "pminvar"):
+        od = kw.pop("order")
+        return np.asarray(getattr(sp, fam)(d, od, **kw).psd, dtype=float)
+    if fam == "pma":
+        return np.asarray(sp.pma(d, kw.pop("Q"), kw.pop("M"), **kw).psd, dtype=float)
+    raise ValueError(fam)
+
+
+def _hdr_name(fam, kw):
+    nm = {"daniell": "DaniellPeriodogram", "sper": "speriodogram", "MT": "MultiTapering", "welch": "WelchPeriodogram",
+          "correlogram": "CORRELOGRAMPSD"}.get(fam, fam)
+    return "%s(%s)" % (nm, ", ".join("%s=%r" % (k, kw[k]) for k in sorted(kw)))
+
+
+def _hdr_level(fam, kw, x):
+    """the power level that sets the round-off of the estimate when it is NOT the largest value of the estimate itself:
+    (a) the Daniell estimate is a DECIMATED average of the periodogram - bin 0 and the last (number of bins) mod (2P+1) bins are never
+        used - so the strongest periodogram bin (whose amplitude sets the FFT round-off of every bin) need not be visible in it;
+    (b) with detrending, the round-off is that of the record BEFORE the trend is removed (a Welch segment that is almost constant has a
+        tiny detrended spectrum computed from large samples): the same estimator without detrending gives that level."""
+    lev = 0.0
+
+    def top(a):
+        a = np.abs(np.asarray(a, dtype=float))
+        a = a[np.isfinite(a)]
+        return float(a.max()) if a.size else 0.0
+
+    if fam in ("daniell", "pdaniell"):
+        dflt = {"daniell": dict(detrend="mean", window="hamming"), "pdaniell": dict(detrend=None, window="hann")}[fam]
+        kq = {k: kw.get(k, dflt.get(k)) for k in ("NFFT", "detrend", "window")}
+        kq.update({k: kw[k] for k in ("sampling", "scale_by_freq") if k in kw})
+        lev = top(C.sp().speriodogram(x, **kq))
+        if kq["detrend"]:
+            lev = max(lev, top(C.sp().speriodogram(x, **dict(kq, detrend=False))))
+    elif fam in ("sper", "Periodogram", "welch") and kw.get("detrend", fam == "sper") not in (None, False, "none"):
+        kr = dict(kw)
+        if fam == "welch":
+            kr.pop("detrend")
+        else:
+            kr["detrend"] = False if fam == "sper" else None
+        lev = top(_hdr_eval(fam, kr, x))
+    return lev
+
+
+def hdr_measure(p):
+    """[(estimator, metric, worst normalised error (in units of the allowed one), bin, got, want, per-bin relative error, message|None)]
+    -- also used by the sweep that measured the constants above"""
+    x, y = _record(p)
+    c = p["c"]
+    s = abs(c) ** 2
+    res = []
+    for fam, kw in p["ests"]:
+        metric = HDR_METRIC[fam]
+        name = _hdr_name(fam, kw)
+        try:
+            ref = _hdr_eval(fam, kw, x)
+        except Exception as e1:
+            try:
+                _hdr_eval(fam, kw, y)
+            except Exception:
+                res.append((name, metric, float("inf"), -1, None, None, None, "raises on in-domain input: %r" % (e1,)))
+                continue
+            res.append((name, metric, float("inf"), -1, None, None, None, "raises on x but not on c*x: %r" % (e1,)))
+            continue
+        try:
+            got = _hdr_eval(fam, kw, y)
+        except Exception as e2:
+            res.append((name, metric, float("inf"), -1, None, None, None, "raises on c*x only: %r" % (e2,)))
+            continue
+        want = s * ref
+        if got.shape != want.shape:
+            res.append((name, metric, float("inf"), -1, None, None, None, "%d values for x, %d for c*x" % (want.size, got.size)))
+            continue
+        fin = np.isfinite(want)
+        if not np.array_equal(np.isfinite(got), fin):
+            k = int(np.argmax(np.isfinite(got) != fin))
+            res.append((name, metric, float("inf"), k, float(got.ravel()[k]), float(want.ravel()[k]), float("inf"),
+                        "finite / non-finite pattern differs"))
+            continue
+        g, w = got[fin], want[fin]
+        if g.size == 0:
+            continue
+        idx = np.flatnonzero(fin.ravel())
+        peak = float(np.max(np.abs(w)))
+        if metric != "bin":
+            peak = max(peak, s * _hdr_level(fam, kw, x))
+        if metric == "amp":
+            allowed = 2 * K_AMP * U_ * np.sqrt(np.abs(w) * peak) + (K_AMP * U_) ** 2 * peak
+        elif metric == "pow":
+            allowed = np.full(w.shape, K_POW * U_ * peak)
+        else:
+            allowed = RTOL_AR * np.abs(w)
+        d = np.abs(g - w)
+        with np.errstate(divide="ignore", invalid="ignore"):
+            q = np.where(allowed > 0, d / np.where(allowed > 0, allowed, 1.0), np.where(d == 0, 0.0, np.inf))
+            r =np.where(w != 0, d / np.abs(w), np.where(d == 0, 0.0, np.inf))
+        j = int(np.argmax(q))
+        res.append((name, metric, float(q[j]), int(idx[j]), float(g[j]), float(w[j]), float(r[j]), None))
+    return res
+
+
+def oracle_hdr(p):
+    x = np.asarray(p["x"])
+    what = "[%s] %s N=%d, c=%r" % (p.get("rec", "?"), ("complex" if np.iscomplexobj(x) else "real") + (" int" if x.dtype.kind in "iu" else "")
+                                  + (" list" if p.get("aslist") else ""), len(x), p["c"])
+    out = []
+    for name, metric, q, k, g, w, r, msg in hdr_measure(p):
+        if msg is not None and g is None:
+            out.append("%s on %s: %s" % (name, what, msg))
+        elif msg is not None:
+            out.append("%s on %s: PSD(c*x) vs |c|^2*PSD(x): %s at bin %d (got %r, |c|^2*ref %r)" % (name, what, msg, k, g, w))
+        elif not (q <= 1.0):
+            law = {"amp": "2*K*u*sqrt(peak*bin) + (K*u)^2*peak, K=%g" % K_AMP, "pow": "K*u*peak, K=%g" % K_POW,
+                   "bin": "per-bin rtol %g" % RTOL_AR}[metric]
+            out.append("%s on %s: PSD(c*x) != |c|^2*PSD(x) at bin %d: got %.6e, |c|^2*ref %.6e (rel.err of this bin %.2e = %.3g x allowed [%s])" % (
+                name, what, k, g, w, r, q, law))
+    return out
+
+
+
 # correspondence on the scaled input: model(c*x) vs impl(c*x)
 
 def impl_scaled(p):
@@ -441,9 +645,34 @@ KINDS = {
     "class": {"oracle": oracle_class, "key": _key, "tags": _tags},
     "scaled": {"impl": impl_scaled, "model": model_scaled, "post": post_scaled, "rtol": 1e-6, "atol": 1e-300, "key": _key, "tags": _tags},
 }
+KINDS["hdr"] = {"oracle": oracle_hdr, "key": lambda p: _hdr_key(p), "tags": lambda p: _hdr_tags(p)}
+KINDS["hdrar"] = {"oracle": oracle_hdr, "key": lambda p: _hdr_key(p), "tags": lambda p: _hdr_tags(p)}
+
+
+def _hdr_key(p):
+    x = np.asarray(p["x"])
+    return "hdr|%s|%r|%d|%d|%s" % (p.get("rec"), p["c"], hash(x.tobytes()) & 0xFFFFFF, hash(repr(p["ests"])) & 0xFFFFFF, p.get("aslist"))
+
+
+def _hdr_tags(p):
+    x = np.asarray(p["x"])
+    c = p["c"]
+    t = ["complex" if np.iscomplexobj(x) else "real", "c:" + ("complex" if isinstance(c, complex) else ("small" if abs(c) < 1 else "large")),
+         "N:%d" % len(x), "hdr-record:%s" % p.get("fam", "?")]
+    if x.dtype.kind in "iu":
+        t.append("dtype:int")
+    if p.get("aslist"):
+        t.append("input:list")
+    for fam, kw in p["ests"]:
+        t.append("hdr-est:%s" % fam)
+        if "P" in kw:
+            t.append("daniell-P:%s" % ("0" if kw["P"] == 0 else ("1-5" if kw["P"] <= 5 else ">5")))
+    return t
+
+
 # the degenerate variants of vcheck.vary (exact zeros, one dominant tone) make the boundary-order / long-order normal equations of funcx
 # singular to working precision; funcx keeps the amplitude and stride variants
-NO_DEGEN = {"funcx"}
+NO_DEGEN = {"funcx", "hdrar"}
 
 
 def _data(nrng, N, cplx):
@@ -590,6 +819,168 @@ def _fx_mid(N):
             "sper": ({}, {"NFFT": 64, "detrend": False, "scale_by_freq": False}), "mtm": ((2.5, None, 64), (4, 8, N))}
 
 
+# ---- generators of the high-dynamic-range kinds --------------------------------------------------------------------------
+
+HDR_FAMS = ["line", "clean", "lowpass", "line2", "highline", "noise", "tone3"]
+HDR_WINDOWS = ["hann", "hamming", "rectangular", "blackman_harris", "nuttall", "bartlett", "flattop", "kaiser", "blackman", "parzen"]
+
+
+def _hdr_data(nrng, fam, N, cplx):
+    """(record, label).  Spectra spanning 120 ... 300 dB: one strong low line over a white floor 120-200 dB down ("line"), the same with a
+    second, weak line ("line2"), the strong line at the TOP of the band ("highline"), noise-free tones whose window side lobes fall to the
+    round-off level ("clean"), a strong smooth low-pass component over a floor ("lowpass"); and two ordinary records ("noise", "tone3")."""
+    n = np.arange(N)
+
+    def tone(k0, ph):
+        return np.exp(1j * (2 * np.pi * k0 * n / N + ph)) if cplx else np.cos(2 * np.pi * k0 * n / N + ph)
+
+    def white(a):
+        return a * (nrng.standard_normal(N) + 1j * nrng.standard_normal(N)) if cplx else a * nrng.standard_normal(N)
+
+    k0 = float(nrng.integers(2, max(4, N // 32) + 1))
+    if nrng.integers(0, 2):
+        k0 += float(nrng.uniform(0.05, 0.95))            # off-bin: leakage skirts
+    ph = float(nrng.uniform(0, 6))
+    fl = float(10 ** nrng.uniform(-10, -6))
+    if fam == "line":
+        x, lab = tone(k0, ph) + white(fl), "line k0=%.2f floor=%.1e" % (k0, fl)
+    elif fam == "line2":
+        a2 = float(10 ** nrng.uniform(-5, -2))
+        k2 = float(nrng.uniform(0.15, 0.45) * N)
+        x, lab = tone(k0, ph) + a2 * tone(k2, 1.0) + white(fl), "line k0=%.2f + %.1e line k=%.1f, floor=%.1e" % (k0, a2, k2, fl)
+    elif fam == "highline":
+        kh = (N - k0) if cplx else (N / 2.0 - k0)
+        x, lab = tone(kh, ph) + white(fl), "line k0=%.2f (top of the band) floor=%.1e" % (kh, fl)
+    elif fam == "clean":
+        a2 = float(10 ** nrng.uniform(-6, -1))
+        k2 = float(nrng.uniform(0.1, 0.45) * N)
+        x, lab = tone(k0, ph) + (a2 * tone(k2, 0.5) if nrng.integers(0, 2) else 0), "clean tone k0=%.2f (+%.1e at k=%.1f)" % (k0, a2, k2)
+    elif fam == "lowpass":
+        wd = N / float(nrng.uniform(5, 12))
+        x = np.exp(-((n - N / 2.0) / wd) ** 2) * (1 + 0.5 * tone(1.0, ph)) + white(fl)
+        lab = "gaussian low-pass pulse (width %.0f) floor=%.1e" % (wd, fl)
+    elif fam == "noise":
+        x, lab = white(1.0), "white noise"
+    elif fam == "tone3":
+        x, lab = tone(0.11 * N, ph) + white(1e-3), "tone + 1e-3 noise"
+    else:
+        raise ValueError(fam)
+    return x, lab
+
+
+def _hdr_adc(nrng, N):
+    """a 24-bit converter record: int64 samples, full-scale low-frequency tone plus +-1 LSB dither (quantisation floor ~ -150 dB)"""
+    n = np.arange(N)
+    k0 = float(nrng.integers(2, max(4, N // 32) + 1)) + float(nrng.uniform(0, 1)) * int(nrng.integers(0, 2))
+    x = np.round(0.9 * 2 ** 23 * np.cos(2 * np.pi * k0 * n / N + nrng.uniform(0, 6))).astype(np.int64) + nrng.integers(-1, 2, N)
+    return x, "24-bit converter record (int64), tone k0=%.2f" % k0
+
+
+def _hdr_scalar(nrng, cplx, i, integer=False):
+    """scalars that are NOT powers of two, 1e-3 <= |c| <= 1e3 (both ends included)"""
+    if integer:
+        return [3, -7, 1000, 37, -999, 5][i % 6]
+    rnd = float(10 ** nrng.uniform(-3, 3)) * (1 if nrng.integers(0, 2) else -1)
+    if cplx:
+        rc = complex(10 ** nrng.uniform(-3, 3) * np.exp(1j * nrng.uniform(0, 6)))
+        base = [3.0, 0.6 - 1.1j, rc, -0.7, 1e3 / 3, 600 - 800j, 1.7e-3, rnd, 6e-4 + 8e-4j, 1000.0, 0.001]
+    else:
+        base = [3.0, -0.7, 1e3 / 3, rnd, 1.7e-3, 1000.0, -0.001, 7.3]
+    return base[i % len(base)]
+
+
+def _hdr_ests(nrng, N, cplx, i, integer=False):
+    """estimator specifications [[family, kwargs], ...] for a record of length N: Daniell as a function and as a class (P incl. 0 and
+    values that do not divide the number of bins; NFFT default / = N / odd / even / zero-padded; several windows; detrend, sampling,
+    scale_by_freq), periodogram (function, class), multitaper unity / eigen, Welch, correlogram (function, class)"""
+    wins = [HDR_WINDOWS[(i + j) % len(HDR_WINDOWS)] for j in range(3)]
+    Ps = [0, 1, 2, 3, 4, 5, 8, 16, int(nrng.integers(6, max(7, N // 16)))]
+    nffts = [None, N, N + 1, 2 * N, N + 2 + int(nrng.integers(0, N)), 2 * N + 1]
+    E = []
+    for j in range(4):
+        kw = {"P": Ps[(i + 2 * j) % len(Ps)], "NFFT": nffts[(i + j) % len(nffts)], "window": wins[j % 3]}
+        if (i + j) % 5 == 1:
+            kw.update(detrend=None, scale_by_freq=False)
+        if (i + j) % 7 == 2:
+            kw.update(sampling=float(nrng.choice([3.0, 0.1, 44100.0])))
+        E.append(["daniell", kw])
+    E.append(["daniell", {"P": Ps[(i + 1) % len(Ps)]}])                       # every default
+    for j in range(2):
+        kw = {"P": Ps[(i + 3 * j + 1) % len(Ps)], "NFFT": nffts[(i + j + 2) % len(nffts)]}
+        if j:
+            kw.update(window=wins[1], detrend="mean", scale_by_freq=bool(i % 2), sampling=[1.0, 7.0][i % 2])
+        E.append(["pdaniell", kw])
+    E.append(["sper", {"NFFT": nffts[(i + 1) % len(nffts)], "window": wins[0]}])
+    E.append(["Periodogram", {"NFFT": nffts[(i + 3) % len(nffts)], "window": wins[2], "detrend": [None, "mean"][i % 2],
+                              "scale_by_freq": bool((i // 2) % 2)}])
+    if N <= 600:
+        for m in (("unity", "eigen") if i % 2 else ("eigen", "unity"))[:1 + (i % 3 == 0)]:
+            E.append(["MT", {"NW": [2.5, 4.0, 3.0][i % 3], "k": [4, None, 5][i % 3], "method": m, "NFFT": nffts[(i + 4) % 4]}])
+        lag = [20, N // 4, N - 1][i % 3]
+        E.append(["correlogram", {"lag": lag, "NFFT": 2 * lag + 1 + [0, 7, N][(i // 3) % 3], "window": ["hamming", "bartlett", "hann"][i % 3]}])
+        if i % 2:
+            E.append(["pcorrelogram", {"lag": [N // 8, 15][(i // 2) % 2], "NFFT": [None, N + 7][(i // 4) % 2]}])
+    if i % 3 == 0 and not integer:
+        kw = {"NFFT": [64, 128, None][(i // 3) % 3]}
+        if (i // 3) % 2:
+            kw.update(noverlap=[16, 32][(i // 6) % 2], detrend="mean")
+        if (i // 3) % 4 == 2:
+            kw.update(sampling=3.0)
+        E.append(["welch", kw])
+    return E
+
+
+def _hdrar_data(nrng, N, cplx):
+    """a narrow-band autoregressive record: poles at radius 0.9 ... 0.995 (spectrum spanning 50 ... 100 dB), unit-ish amplitude"""
+    r_ = float(nrng.choice([0.9, 0.95, 0.99, 0.995]))
+    th = float(nrng.uniform(0.2, 2.8))
+    M = N + 800
+    if cplx:
+        a = np.poly([r_ * np.exp(1j * th), 0.7 * r_ * np.exp(-1j * nrng.uniform(0.2, 2.8))])
+        e = nrng.standard_normal(M) + 1j * nrng.standard_normal(M)
+    else:
+        a = np.poly([r_ * np.exp(1j * th), r_ * np.exp(-1j * th)]).real
+        e = nrng.standard_normal(M)
+    x = np.zeros(M, dtype=e.dtype)
+    for t in range(M):                                   # x[t] = e[t] - a1 x[t-1] - a2 x[t-2]
+        x[t] = e[t] - (a[1] * x[t - 1] if t >= 1 else 0) - (a[2] * x[t - 2] if t >= 2 else 0)
+    x = x[800:]
+    return x / np.max(np.abs(x)) * float(10 ** nrng.uniform(-2, 2)), "AR(2) record, pole radius %g, angle %.2f" % (r_, th)
+
+
+def _hdrar_ests(N, i):
+    od = [2, 4, 8][i % 3]
+    nf = [None, N + 7, 2 * N][(i // 3) % 3]
+    return [["pburg", {"order": od, "NFFT": nf}], ["pyule", {"order": od, "NFFT": nf}], ["pcovar", {"order": od, "NFFT": nf}],
+            ["pmodcovar", {"order": od, "NFFT": nf}], ["pminvar", {"order": od, "NFFT": nf}], ["pma", {"Q": od, "M": 3 * od, "NFFT": nf}]]
+
+
+def _gen_hdr(nrng, quick):
+    Ns = [1024, 512, 1000, 300, 257, 2048, 256, 600]
+    n = 28 if quick else 70
+    for i in range(n):
+        cplx = bool((i // len(HDR_FAMS)) % 2) if quick else bool(nrng.integers(0, 2))
+        fam = HDR_FAMS[i % len(HDR_FAMS)]
+        N = Ns[(i + i // len(Ns)) % len(Ns)]
+        x, lab = _hdr_data(nrng, fam, N, cplx)
+        if i % 4 == 3:
+            x = x * float(10 ** nrng.uniform(-6, 6))      # "all data vectors": overall amplitude
+        q = {"x": x, "c": _hdr_scalar(nrng, cplx, i), "rec": lab, "fam": fam, "ests": _hdr_ests(nrng, N, cplx, i)}
+        if i % 9 == 4:
+            q["aslist"] = True
+        yield ("hdr", q)
+    for i in range(4 if quick else 10):
+        N = [1024, 500, 257, 2048][i % 4]
+        x, lab = _hdr_adc(nrng, N)
+        yield ("hdr", {"x": x, "c": _hdr_scalar(nrng, False, i + int(nrng.integers(0, 6)), integer=True), "rec": lab, "fam": "adc24",
+                       "ests": _hdr_ests(nrng, N, False, i + 1, integer=True), "aslist": bool(i % 2)})
+    for i in range(6 if quick else 24):
+        cplx = bool(i % 2)
+        N = [128, 256, 300][(i // 2) % 3]
+        x, lab = _hdrar_data(nrng, N, cplx)
+        yield ("hdrar", {"x": x, "c": _hdr_scalar(nrng, cplx, i + int(nrng.integers(0, 11))), "rec": lab, "fam": "ar2", "ests": _hdrar_ests(N, i + int(nrng.integers(0, 9)))})
+
+
 def gen(rng, nrng, tier):
     quick = tier == "quick"
     n = 20 if quick else 150
@@ -690,3 +1081,7 @@ def gen(rng, nrng, tier):
             p["crit"] = CRITS[(i // 10) % 6]      # i = 10k+4 is real, 10k+9 complex: both kinds get all six criteria
             p["order"] = 10
         yield ("scaled", p)
+    # bin-by-bin comparisons on high-dynamic-range records (Daniell function / class, periodogram, Welch, multitaper, correlogram,
+    # AR classes); generated last: the random streams of the cases above are the same as before these kinds existed
+    for kp in _gen_hdr(nrng, quick):
+        yield kp
